@@ -37,7 +37,7 @@ def groups(thorough):
     """Each group is one TLC run + one walker run; groups run concurrently."""
     if not thorough:
         return [PARSE_PLANS, STR_PLANS]
-    return [["struct"], ["lex"], ["members", "deep", "edits", "editlex"], ["shape", "proxy", "indent"], ["leaves"], ["keys"]]
+    return [["struct"], ["lex", "lexnum"], ["lexstr", "members", "deep"], ["edits", "editlex"], ["shape", "proxy", "indent"], ["leaves", "keys"]]
 
 
 def diagnose(mm):
